@@ -599,6 +599,9 @@ fn c17(tier: Tier, seed: u64) -> i32 {
 		let case = gen_seq(&mut Src::new(bytes), &cfg);
 		eval_seq_case(&e, &case, want)
 	});
+	// a non-acquiring operation racing with acquisitions of other threads
+	// (check-then-act inside Debug would wait there)
+	conc_campaign(&mut ctx, "C17", tier);
 	ctx.require_label("nonacq_transient_raw_ops", 200);
 	ctx.finish()
 }
@@ -946,6 +949,7 @@ pub fn conc_campaign(ctx: &mut CheckCtx, prop: &'static str, tier: Tier) {
 pub fn conc_nontrivial(prop: &str, case: &ConcCase, r: &RunResult) -> bool {
 	match prop {
 		"C08" => c08_nontrivial(&case.world, r),
+		"C17" => r.switches > 0 && has(r, "nonacq_transient_raw_ops"),
 		"C10" => has(r, "panic_in_section") && (has(r, "poison_observed_after_panic") || has(r, "poisoned_acquire")),
 		"C02" => {
 			// two threads touched a common leaf, one exclusively, and the scheduler switched
@@ -1744,6 +1748,7 @@ pub fn seq_profile(prop: &str) -> Option<(SeqCfg, Opts)> {
 			cfg.w.p_forget_guard = 20;
 			cfg.w.p_panic = 50;
 			cfg.w.p_probe_in_body = 150;
+			cfg.w.p_unwinding_drop = 40;
 			cfg.w.p_owned_key = 128;
 			cfg.world.max_colls = 3;
 			let opts = Opts::default();
@@ -1868,6 +1873,7 @@ pub fn seq_profile(prop: &str) -> Option<(SeqCfg, Opts)> {
 			cfg.w.phantom_hold = 1;
 			cfg.w.p_unwinding_drop = 50;
 			cfg.w.kill = 1;
+			cfg.w.debug = 2;
 			let opts = Opts::default();
 			Some((cfg, opts))
 		}
@@ -1901,6 +1907,15 @@ pub fn conc_profile(prop: &str) -> Option<ConcCfg> {
 			cfg.retry_first = true;
 			cfg.world.min_colls = 2;
 			cfg.p_try = 20;
+			Some(cfg)
+		}
+		"C17" => {
+			// `{:?}` of targets between and inside sections while other threads
+			// take and release the same locks
+			let mut cfg = ConcCfg::default();
+			cfg.p_debug_step = 200;
+			cfg.p_debug_in_body = 90;
+			cfg.max_acq = 2;
 			Some(cfg)
 		}
 		"C11" => {
